@@ -13,7 +13,7 @@ let ints_of toks = List.map int_of_string toks
 
 let fuel = nat_of_int 200000
 
-let dump (s : pstate) (rc : string) : unit =
+let dump_str (s : 'a state) (rc : string) : string =
   let b = Buffer.create 256 in
   Buffer.add_string b ("rc=" ^ rc);
   Buffer.add_string b (" lvl=" ^ string_of_int (List.length s.trail_lim));
@@ -31,12 +31,31 @@ let dump (s : pstate) (rc : string) : unit =
   Buffer.add_string b (String.concat "|" (List.map (fun (k, ls) ->
       string_of_int (int_of_nat k) ^ ":" ^ join (fun l -> string_of_int (idx_of_lit l)) ls) (List.rev s.log)));
   if s.ub then Buffer.add_string b " UB";
-  print_endline (Buffer.contents b)
+  Buffer.contents b
 
-let clear_log (s : pstate) : pstate = { s with log = [] }
+let dump s rc = print_endline (dump_str s rc)
+let clear_log (s : 'a state) : 'a state = { s with log = [] }
 
+(* value of a literal under the assignment vector of a state *)
+let lit_value (s : 'a state) ((v, sg) : lit) : lbool =
+  match List.nth_opt s.assigns (int_of_nat v) with
+  | Some LT -> if sg then LT else LF
+  | Some LF -> if sg then LF else LT
+  | _ -> LU
+let in_range (s : 'a state) (ls : lit list) = List.for_all (fun (v, _) -> int_of_nat v < List.length s.assigns) ls
+
+(* Two instances of the model run side by side: the propositional one (no theory: the instance of the closed theorems) and the
+   one with the scripted probe theory.  While no theory clause has been declared they must print the same line (the
+   propositional instance is the one printed; "?instances-diverge" otherwise); from the first t-command on only the probe
+   instance runs.
+     tc <kind> <lits>   declare a theory clause (kind 0: conflict in propagate, 1: + unit lemmas, 2: check() only);
+                        skip when dead, empty, out of range or every literal is false now
+     tx <lits>          declare it (kind 0) and raise it as a conflict from outside propagation
+                        (theory::backtrack_analyze_and_backjump); skip unless the queue is empty and every literal is false *)
 let model () =
-  let st = ref p_init in
+  let stp = ref p_init in
+  let stq = ref q_init in
+  let theory = ref false in
   let dead = ref false in
   try
     while true do
@@ -44,34 +63,74 @@ let model () =
       match List.filter (fun s -> s <> "") (String.split_on_char ' ' line) with
       | [] -> print_endline "?unknown"
       | cmd :: args ->
-        let ls = List.map lit_of_idx (ints_of args) in
         let exec (o : op) =
-          if (not !dead) && p_pre !st o then begin
-            let nv = List.length (!st).assigns in
-            let (s1, r) = p_step fuel !st o in
-            let rc = match o, r with
-              | ONewVar, _ -> string_of_int nv
-              | _, RTrue -> "1" | _, RFalse -> "0" | _, ROutOfFuel -> "fuel" in
-            dump s1 rc; st := clear_log s1;
-            if p_dead_after o s1 r then dead := true
-          end else dump !st "skip" in
+          if !theory then begin
+            if (not !dead) && q_pre !stq o then begin
+              let nv = List.length (!stq).assigns in
+              let (s1, r) = q_step fuel !stq o in
+              let rc = match o, r with
+                | ONewVar, _ -> string_of_int nv
+                | _, RTrue -> "1" | _, RFalse -> "0" | _, ROutOfFuel -> "fuel" in
+              dump s1 rc; stq := clear_log s1;
+              if q_dead_after o s1 r then dead := true
+            end else dump !stq "skip"
+          end else begin
+            if (not !dead) && p_pre !stp o then begin
+              let nv = List.length (!stp).assigns in
+              let (s1, r) = p_step fuel !stp o in
+              let (t1, r') = q_step fuel !stq o in
+              let rc = match o, r with
+                | ONewVar, _ -> string_of_int nv
+                | _, RTrue -> "1" | _, RFalse -> "0" | _, ROutOfFuel -> "fuel" in
+              let lp = dump_str s1 rc in
+              if lp <> dump_str t1 rc || r <> r' || q_pre !stq o <> true then print_endline "?instances-diverge" else print_endline lp;
+              stp := clear_log s1; stq := clear_log t1;
+              if p_dead_after o s1 r then dead := true
+            end else dump !stp "skip"
+          end in
+        (match cmd with
+         | "tc" | "tx" ->
+           let is_tx = (cmd = "tx") in
+           let nums = ints_of args in
+           let (kind, ls) = if is_tx then (0, List.map lit_of_idx nums)
+             else (match nums with k :: r -> (k, List.map lit_of_idx r) | [] -> (0, [])) in
+           let s = !stq in
+           let all_false = List.for_all (fun l -> lit_value s l = LF) ls in
+           let ok = (not !dead) && ls <> [] && in_range s ls && kind >= 0 && kind <= 2
+                    && (if is_tx then all_false && s.prop_q = [] else not all_false) in
+           if not ok then (if !theory then dump !stq "skip" else dump !stp "skip")
+           else begin
+             theory := true;
+             if is_tx then begin
+               let (s1, r) = q_ext_conflict fuel s ls in
+               let rc = match r with RTrue -> "1" | RFalse -> "0" | ROutOfFuel -> "fuel" in
+               dump s1 rc; stq := clear_log s1;
+               if r = RFalse && s1.trail_lim = [] then dead := true
+             end else begin
+               let s1 = q_declare s (nat_of_int kind) ls in
+               dump s1 "1"; stq := s1
+             end
+           end
+         | _ ->
+        let ls = List.map lit_of_idx (ints_of args) in
         (match cmd, ls with
-         | "reset", _ -> st := p_init; dead := false; dump !st "1"
+         | "reset", _ -> stp := p_init; stq := q_init; theory := false; dead := false; dump !stp "1"
          | "v", _ -> exec ONewVar
          | "c", _ -> exec (ONewClause ls)
          | "a", [l] -> exec (OAssume l)
-         | "a", _ -> dump !st "skip"
+         | "a", _ -> if !theory then dump !stq "skip" else dump !stp "skip"
          | "p", _ -> exec OPropagate
          | "o", _ -> exec OPop
          | "n", _ -> exec ONext
          | "k", _ -> exec (OCheck ls)
          | "s", _ -> exec OSimplify
          | "d", _ ->
-           let s = !st in
-           let pos c = let rec go i = function [] -> "?" | x :: t -> if x = c then string_of_int i else go (i + 1) t in go 0 s.constrs in
-           print_endline ("cls=" ^ String.concat "|" (List.map (fun c -> join (fun l -> string_of_int (idx_of_lit l)) (lits_of s c)) s.constrs)
-                          ^ " w=" ^ String.concat "|" (List.map (fun w -> join pos w) s.watches))
-         | _ -> print_endline "?unknown")
+           let show s =
+             let pos c = let rec go i = function [] -> "?" | x :: t -> if x = c then string_of_int i else go (i + 1) t in go 0 s.constrs in
+             print_endline ("cls=" ^ String.concat "|" (List.map (fun c -> join (fun l -> string_of_int (idx_of_lit l)) (lits_of s c)) s.constrs)
+                            ^ " w=" ^ String.concat "|" (List.map (fun w -> join pos w) s.watches)) in
+           if !theory then show !stq else show !stp
+         | _ -> print_endline "?unknown"))
     done
   with End_of_file -> ()
 
